@@ -92,7 +92,9 @@ def inputs():
     rx = protect(electrical_signal(x.signal * 0.01, 2e-4 * np.random.RandomState(11).randn(64 * sps)))
     ppmbits = protect(ppm.PPM_ENCODER(bits, 4))
     ppmwave = protect(dv.DAC(ppmbits))
-    slots = protect(binary_sequence(np.random.RandomState(3).randint(0, 2, 64)))
+    sl_ = np.random.RandomState(3).randint(0, 2, 64)
+    sl_[8:12] = 0; sl_[20:24] = 0; sl_[40:44] = 1                       # erased symbols and a symbol with every slot ON (order 4)
+    slots = protect(binary_sequence(sl_))
     st = np.random.get_state()
     np.random.seed(17)
     ey = dv.GET_EYE(rx, sps_resamp=32)
